@@ -581,7 +581,10 @@ class PrecipitateModel (PrecipitateBase):
             #Only the growth rate needs to be updated, since all other terms are previous
             #Also revert the PSD in case this function was called to adjust for the new PSD bins
             else:
+                #Equilibrium could not be found this time: continue from the last valid values
                 growthRate = self.growth[p]
+                xEqAlpha = self.pData.xEqAlpha[self.pData.n,p]
+                xEqBeta = self.pData.xEqBeta[self.pData.n,p]
         else:
             growth, xAlpha, xBeta, xEqAlpha, xEqBeta = growth_result
             #Update interfacial composition for each precipitate size
